@@ -512,9 +512,11 @@ def scalar_binding_check(plan, wb, resb, positions, stats):
     Integer / boolean results must be identical; floating results within a deliberately loose tolerance (its job
     is to catch a wrong element function, argument or overload, not to re-judge numerics)."""
     e = plan["entry"]
-    if plan["mode"] not in ("scaled", "nz"):
-        return None
     n = plan["n"]
+    if not e["owner"] and plan["mode"] not in ("scaled", "nz"):
+        # module functions on the basic arrays: the scalar call resolves Python floats to the double overload, the
+        # array runs in float - with extreme values (overflow) the two legitimately differ; ordinary values only
+        return None
     tn = type(resb).__name__
     if tn not in PT.ARRAYS or len(resb) != n or e["name"].startswith("__i"):
         return None
@@ -538,7 +540,8 @@ def scalar_binding_check(plan, wb, resb, positions, stats):
             tt = PT.ARRAYS.get(a["t"]) or PT.TYPES.get(a["t"])
             if tt is not None and tt.isfloat:
                 try:
-                    scale *= max(1.0, max(abs(x) for x in tt.flat(v)))
+                    m = max((abs(x) for x in tt.flat(v) if x == x and abs(x) != float("inf")), default=0.0)
+                    scale = scale * m if m > 0 else scale      # product of the operands' magnitudes, tiny operands included
                 except Exception:  # noqa: BLE001
                     pass
         try:
